@@ -186,9 +186,10 @@ fn process_dir(
                 writeln!(&mut stderr(), "Error: {err}").unwrap();
             }
             Ok(entry) => {
-                // walkdir clamps min_depth down to max_depth; with
-                // -mindepth > -maxdepth no entry is in range.
-                if config.min_depth > config.max_depth {
+                // walkdir clamps min_depth down to max_depth (with
+                // -mindepth > -maxdepth no entry is in range), and broken
+                // symlinks recovered from its errors bypass its depth filter.
+                if entry.depth() < config.min_depth || entry.depth() > config.max_depth {
                     continue;
                 }
                 let mut matcher_io = matchers::MatcherIO::new(deps);
